@@ -1468,6 +1468,29 @@ func (g *G) genFunc(i int) *Func {
 			}
 		}
 	}
+	if len(f.Params) > 0 && r.Chance(1, 8) {
+		// the body STARTS with an argument check that panics: the panic belongs to the first
+		// advance, calling the generator function runs nothing
+		id := g.id()
+		f.Body = append([]*S{{K: SRaw, ID: id, Src: fmt.Sprintf("if %s < 0 {\n\tpanic(\"negative argument\")\n}", f.Params[0])}}, f.Body...)
+		g.mark("body_starts_with_a_panicking_argument_check")
+	}
+	if r.Chance(1, 8) {
+		// a switch with a default in which EVERY clause ends in a jump (break of the switch,
+		// continue of the loop), in a loop, followed by statements that are very much alive; and
+		// a type switch with a ':=' initialiser AND a guard symbol whose initialiser variable is
+		// read only inside a closure of a clause, next to an outer variable of the same name
+		p0 := "2"
+		if len(f.Params) > 0 {
+			p0 = f.Params[0]
+		}
+		id := g.id()
+		t1, t2, t3, t4 := g.nextTag(), g.nextTag(), g.nextTag(), g.nextTag()
+		text := fmt.Sprintf("for q%[1]d := 0; q%[1]d < 3; q%[1]d++ {\n\tswitch {\n\tcase q%[1]d == %[2]s:\n\t\tvrt.E(%[3]d, q%[1]d)\n\t\tbreak\n\tcase q%[1]d == 2:\n\t\tcontinue\n\tdefault:\n\t\tif q%[1]d > 5 {\n\t\t\tcontinue\n\t\t} else {\n\t\t\tbreak\n\t\t}\n\t}\n\tvrt.E(%[4]d, q%[1]d)\n\t«Yield»(q%[1]d + 70)\n}\nw%[1]d := any(\"outer\")\n_ = w%[1]d\nswitch w%[1]d := any(%[2]s); x%[1]d := w%[1]d.(type) {\ncase int:\n\tsee%[1]d := func() any { return w%[1]d }\n\t«Yield»(x%[1]d + 1)\n\tvrt.E(%[5]d, see%[1]d().(int))\ncase string:\n\tvrt.E(%[6]d, len(x%[1]d))\n}", id, p0, t1, t2, t3, t4)
+		f.Body = append([]*S{{K: SRaw, ID: id, Src: text}}, f.Body...)
+		g.mark("switch_whose_every_clause_ends_in_a_jump_followed_by_live_statements")
+		g.mark("type_switch_with_define_init_and_guard_symbol_init_variable_read_in_a_closure_only")
+	}
 	if r.Chance(1, 8) {
 		// plain three-clause loops whose init is NOT a ':=' (an assignment, a call) nested in
 		// compound statements that do not yield either: they stay native, init included
